@@ -206,6 +206,26 @@ func genC06(g *Rng, tier string, emit func(Op)) {
 		emit(declKey(kp))
 	}
 	var prev *issuanceRun
+	// the parameter set with Lm != Lh (4096-bit moduli): attributes between the hash length and
+	// the message length, and random-blind attributes, are signed as they are
+	{
+		kp := key4096("k4096", 3)
+		emit(declKey(kp))
+		nruns := 0
+		for _, blind := range [][]int{nil, {0}, {1}, {0, 1}} {
+			for _, keyshare := range []bool{false, true} {
+				if tier != "thorough" && keyshare && len(blind) != 1 {
+					continue
+				}
+				run := honestIssuance(g, kp, 2, blind, keyshare, false, emit)
+				emit(run.op)
+				if tier == "thorough" || nruns < 2 {
+					emitIssuanceAlterations(g, run, nil, emit)
+				}
+				nruns++
+			}
+		}
+	}
 	for _, kp := range keys {
 		nR := len(kp.pk.R) - 1
 		for nattr := 1; nattr <= nR && nattr <= 4; nattr++ {
